@@ -1246,6 +1246,17 @@ func (fv *FV) callEffects(eff *loopEffects, c *ast.CallExpr) {
 			eff.allocs = true
 		}
 		osig := callee.Origin().Type().(*types.Signature)
+		if recvExpr != nil && osig.Recv() != nil {
+			if _, wantPtr := osig.Recv().Type().(*types.Pointer); wantPtr {
+				if id, ok := ast.Unparen(recvExpr).(*ast.Ident); ok {
+					if _, isPtr := fv.typeOf(recvExpr).Underlying().(*types.Pointer); !isPtr {
+						if o := fv.info.ObjectOf(id); o != nil {
+							eff.locals[o] = true // boxed and written back by the call
+						}
+					}
+				}
+			}
+		}
 		names := map[string]ast.Expr{}
 		if recvExpr != nil && osig.Recv() != nil {
 			names[osig.Recv().Name()] = recvExpr
